@@ -183,7 +183,8 @@ def generate(run_seed, cfg):
         n = len(lines)
         twice = True
     inc_fmt = [[sw.choice(["include", "INCLUDE", "Include"]), sw.choice(["'", '"']),
-                (sw.choice([6, 6, 8]) if form == "fixed" else sw.choice([0, 1, 3, 6]))]
+                (sw.choice([6, 6, 8]) if form == "fixed" else sw.choice([0, 1, 3, 6])),
+                sw.choice([" ", " ", " ", "", "   "]), sw.choice(["", "", "  "])]
                for _ in runs]
     # ---- directories, decoys, search path
     perm = DIRS[:]
@@ -265,8 +266,10 @@ def materialise(case):
     lines, runs, names, fmt = case["lines"], case["runs"], case["names"], case["inc_fmt"]
 
     def inc_line(k):
-        kw, quote, ind = fmt[k]
-        return " " * ind + "%s %s%s%s" % (kw, quote, names[k], quote)
+        kw, quote, ind = fmt[k][:3]
+        sep = fmt[k][3] if len(fmt[k]) > 3 else " "      # the blank after INCLUDE is optional
+        trail = fmt[k][4] if len(fmt[k]) > 4 else ""
+        return " " * ind + "%s%s%s%s%s%s" % (kw, sep, quote, names[k], quote, trail)
 
     def render(lo, hi, exclude):
         out = []
